@@ -132,6 +132,11 @@ def rfc_merge(b_authority, b_path, r_path):
 
 def rfc_resolve(base_text, ref_text):
     """5.2.2 (strict), base already parsed/normalised by the caller as 5.2.1 asks: text in, text out"""
+    return rfc_recompose(*rfc_resolve_c(base_text, ref_text))
+
+
+def rfc_resolve_c(base_text, ref_text):
+    """5.2.2: the five components of the target (5.3 recomposition not applied)"""
     bs, ba, bp, bq, _bf = rfc_parse(base_text)
     rs, ra, rp, rq, rf = rfc_parse(ref_text)
     if rs is not None:
@@ -151,7 +156,7 @@ def rfc_resolve(base_text, ref_text):
                 tq = rq
             ta = ba
         ts = bs
-    return rfc_recompose(ts, ta, tp, tq, rf)
+    return (ts, ta, tp, tq, rf)
 
 
 def split_authority(a):
@@ -234,6 +239,20 @@ def same_uri(got, want):
     ng = qnorm(cg[3]) if cg[3] is not None else ''
     nw = qnorm(cw[3])
     return cg[:3] + (ng,) + cg[4:] == cw[:3] + (nw,) + cw[4:]
+
+
+def same_hostless(gd, want):
+    """a result WITHOUT a host (observed public components `gd`) against the components of the RFC target: scheme,
+    path, query, fragment (same identifications as `canon` / `same_uri`).  The text is not compared: how to_text()
+    writes an empty authority is property C06's business."""
+    ws, wa, wp, wq, wf = want
+    if gd['host'] or (wa or '') != '':
+        return False
+    gq, wq = gd['query'] or None, wq or None
+    if gq != wq and (wq is None or query_canonical(wq) or qnorm(gq or '') != qnorm(wq)):
+        return False
+    return ((gd['scheme'] or None) == (ws.lower() if ws is not None else None)
+            and pct_norm(gd['path']) == pct_norm(wp) and (gd['frag'] or None) == (wf or None))
 
 
 def own_pairs(q):
@@ -411,6 +430,8 @@ class C07(Property):
             'random bases and references. After every history the results are mutated through their public '
             'query_params (one marker parameter each) and the base / earlier results are observed again; every '
             'intermediate result is also observed before and after it serves as the base of the next step. '
+            'Then the hostless family: 6 bases without a host and with a rooted non-empty path (file:///a/b/c, foo:/a/b, '
+            '...) x every reference of <= 3 segments x 3 query forms + 2 chains, judged against the RFC by components. '
             'Second: the authority family (7 userinfo shapes incl. upper case x 3 hosts incl. mixed case and IPv6 x 3 '
             'ports x 2 schemes x 2 base paths x 7 reference kinds + one 3-step chain); third: normalize() alone on '
             'every base path of <= 4 segments over the small alphabet, rooted under a host and rooted / rootless '
@@ -428,9 +449,18 @@ class C07(Property):
         'parameters, not the query text; every other query is compared verbatim',
         'comparison identifies an empty path under an authority with "/", scheme/host case, and a present-but-empty '
         'query or fragment with an absent one (boltons URL cannot represent the latter difference)',
-        'the RFC-equality clause is judged for bases with a non-empty host and an empty or rooted path (and, for '
-        'references with an empty path, a dot-free base path); other bases are checked against the model and for '
-        'the dot-free / base-unmodified / idempotence clauses only',
+        'the RFC-equality clause is judged for bases with a non-empty host and an empty or rooted path, and (round 3c) '
+        'for bases without a host whose path is rooted and not empty (file:///a/b, foo:/a/b: compared component by '
+        'component, the text of an empty authority is property C06) - in both cases, for references with an empty '
+        'path, only when the base path is dot-free; other bases (rootless paths: urn:x/y, mailto:me; an empty '
+        'authority with an empty path: file://) are checked against the model and for the dot-free / base-unmodified / '
+        'idempotence clauses only',
+        'a reference that has a scheme but no host (mailto:x, urn:a:b, g:h, https:, file:///p) is outside the statement '
+        '(it speaks about references without scheme and authority and about references with their own scheme AND '
+        'host): such a step and every later step of the same history is compared neither with the model (token _ on '
+        'both sides) nor with the RFC, and may even raise; what the tree under test answers is recorded in the '
+        'histogram (ref_with_scheme_without_host ...). The base-unmodified / no-shared-state / dot-free clauses are '
+        'still checked on those steps',
     ]
     CORRESPONDENCE_NAME = 'C07.Driver (navigate / resolve_path_parts / normalize / to_text model) vs boltons.urlutils.URL'
 
@@ -641,6 +671,27 @@ class C07(Property):
                             yield {'base': b, 'refs': [{'path': 'x/'}, {'path': '../Y'}, {'frag': 'Z'}], 'as_url': 0,
                                    'lazy': 1}
 
+    HOSTLESS_BASES = [
+        {'scheme': 'file', 'auth': 1, 'path': '/a/b/c', 'query': 'q=1'},
+        {'scheme': 'foo', 'path': '/a/b', 'frag': 'f'},
+        {'scheme': 'x-y.z', 'path': '/a//b/'},
+        {'scheme': 'urn', 'path': '/x'},
+        {'scheme': 'unk', 'auth': 1, 'path': '/'},
+        {'scheme': 'file', 'auth': 1, 'path': '/a/./b/../c'},
+    ]
+
+    def hostless_family(self):
+        """bases without a host whose path is rooted and not empty (`file:///a/b/c`, `foo:/a/b`): every reference of
+        <= 3 segments x 3 query forms, and two chains"""
+        paths = sorted(set(self.exhaustive_refs(3, SEGS_SMALL)))
+        for b in self.HOSTLESS_BASES:
+            for path in paths:
+                for q in QUERIES:
+                    yield {'base': b, 'refs': [compact({'path': path, 'query': q})], 'as_url': 0}
+            yield {'base': b, 'refs': [{'path': '../x/./y', 'query': 'k=1&k'}, {'query': ''}, {'frag': 'top'},
+                                       {'path': '..//z'}, {'path': '../../../..'}], 'as_url': 0}
+            yield {'base': b, 'refs': [{'path': 'g/'}, {'path': '.'}, {'path': '/r', 'frag': 's'}, {}], 'as_url': 1}
+
     def normalize_family(self):
         """normalize() on its own (no navigation): every path of <= 4 segments over {., .., empty, a, b;p}, rooted
         under a host, rooted and rootless without one, mixed-case scheme / host"""
@@ -659,6 +710,8 @@ class C07(Property):
         for c in self.query_family():
             yield c
         for c in self.authority_family():
+            yield c
+        for c in self.hostless_family():
             yield c
         for c in self.small_families():
             yield c
@@ -952,8 +1005,16 @@ class C07(Property):
         returns 'rel' / 'abs' / None"""
         rs, ra, rp, rq, rfr = rfc_parse(ref_text)
         s, a, p, q, f = rfc_parse(cur_text)
-        if s is None or a is None:
+        if s is None:
             return None
+        if a is None or a == '':
+            # a base without a host (`file:///a/b`, `foo:/a/b`): judged when its path is rooted and not empty (then
+            # RFC 5.2.3 does not look at the authority; theorem navigateWith_eq_rfc_hostless) - components, not texts
+            if not p.startswith('/') or p.startswith('//') and a is None:
+                return None
+            if rs is not None or ra is not None or (rp == '' and dot_segments(p)):
+                return None
+            return 'rel_hostless'
         ui, host, port = split_authority(a)
         if not host:
             return None
@@ -1043,6 +1104,19 @@ class C07(Property):
                     return f
                 judged += 1
                 cur = want
+            elif kind == 'rel_hostless':
+                want_c = rfc_resolve_c(cur, rt)
+                want = rfc_recompose(*want_c)
+                if not same_hostless(gd, want_c):
+                    f = Failure('rfc_mismatch', 'step %d: %r navigate %r -> scheme %r, host %r, path %r, query %r, '
+                                'fragment %r; RFC 3986 5.2 target %r' % (i, cur, rt, gd['scheme'], gd['host'], gd['path'],
+                                                                         gd['query'], gd['frag'], want))
+                    f.step, f.cur, f.ref, f.got, f.want = i, cur, rt, got, want
+                    return f
+                judged += 1
+                cur = want
+                if want_c[1] is None and want_c[2].startswith('//'):
+                    synced = False      # the recomposed target text would read its path as an authority (RFC 3986 3.3)
             elif kind == 'abs':
                 # replaces the base entirely: the reference itself, dot segments removed or not
                 want = rfc_resolve(cur, rt)
